@@ -104,7 +104,12 @@ class Script:
             if not self.events:
                 if r:
                     break
-                self.apply_env("signal")     # nothing left to happen: stop the server
+                if not self.shutdown_signalled:
+                    self.apply_env("signal")     # nothing left to happen: stop the server
+                elif self.running:
+                    self.apply_env("finish")     # the environment lets a request in flight finish
+                else:
+                    return [], [], []            # nothing can become ready any more
                 continue
             ev = self.events.pop(0)
             if ev == "loop":
